@@ -69,6 +69,14 @@ CHECKS.update({
          'Each seeded symbolic program is executed twice from identical initial state in the simulator, once in plain spelling and once with every astring independently spelled as atom/quoted/{n}/{n+} (literals possibly sent before the continuation request, chunked anywhere), random case of command words, flags and attributes; tagged results, untagged data and final mailbox dumps must be equal, and every name reported by LIST/LSUB/STATUS must decode, with the harness\'s own decoder, to a name that was sent. The round-trip clause is checked by direct calls to the parse classes on seeded values - no simulator is involved in that clause.',
          'Trusted: simulator determinism for the pairing; only canonical modified-UTF-7 and no extra spacing are generated.'),
 })
+CHECKS.update({
+ 'C04': ('exploration', '4/C04', 'seeded multi-session histories with an observer taking STATUS + token dumps after every step; UID book-keeping per (MAILBOXID, UIDVALIDITY)',
+         'Seeded histories of APPEND/COPY/MOVE/EXPUNGE/RENAME/DELETE+CREATE by 1-3 sessions over three mailboxes (expunge-highest-then-add, concurrent appenders) run in the simulator; after every step an observer records STATUS and a dump with message tokens of every mailbox, and a ledger keyed by mailbox identity and UIDVALIDITY checks strict increase, non-reuse over the whole history, UIDNEXT bounds in both directions, and APPENDUID/COPYUID count, order and token pairing.',
+         'Trusted: MAILBOXID as identity; the crash/restart part of the quantifier (maildir) is decided by C15.'),
+ 'C14': ('fault_enumeration', '4/C14', 'per base case: one fault-free run to count scheduler moves, then one deterministic re-run per fault kind x position (exhaustive per case); token-conservation oracle on probe dumps',
+         'For each seeded base case (MOVE / COPY / multi-message APPEND / EXPUNGE, optionally with a second session acting in the same step, every lock and drain a real suspension point) the target step is executed fault-free to count its scheduler moves N, then the identical case is re-executed once for every fault kind (task cancellation, connection reset, client EOF) at every position 0..N. Probe dumps before and after decide: no token lost, APPEND all-or-nothing, completed MOVE in exactly one mailbox, NO/BAD changes nothing.',
+         'Determinism is what makes "position k of the same execution" meaningful. On the dict backend the interesting windows exist only under lock_yield; storage-call failures and process kill are maildir-only and live in C15.'),
+})
 NOT_YET = {}
 def main():
     props = [json.loads(l) for l in open(os.path.join(ROOT, 'properties.jsonl'))]
